@@ -10,8 +10,9 @@ def World.ordKey (w : World) (n : Nat) : Key := (w.ords[n]?).getD Key.NULL
 /-- `World::spawn` -/
 def opSpawn : M Key := do
   let id ← reserve
-  modify fun w => { w with ords := w.ords.push id }
   sendGlobal .spawn { ent := id }
+  -- the caller learns the id (and the harness gives it its ordinal) only when `spawn` returns
+  modify fun w => { w with ords := w.ords.push id }
   pure id
 
 def renderResult (r : Bool) : String := if r then "ret some" else "ret none"
@@ -146,7 +147,7 @@ def step (w : World) (op : Op) : World × List String :=
   let lines := head ++ w.out.toList.map (fun s => "t " ++ s)
     ++ [s!"ed {" ".intercalate ((natSort w.edrops).map toString)}".trimAsciiEnd.toString,
         s!"cd {renderCDrops w.cdrops}".trimAsciiEnd.toString]
-    ++ (match op with | .drop => [] | _ => [w.renderStore, w.renderReg])
+    ++ (match op with | .drop => [] | _ => [w.renderStore, w.renderReg, s!"pend res={w.resCount} queue={w.queue.length}"])
   (w, lines)
 
 end Evenio
